@@ -39,13 +39,13 @@ Qed.
 (* ---- node point requests ---- *)
 Lemma wr_np_root st i pts : s_root (wr st (NodePts i pts)) = s_root st.
 Proof.
-  unfold wr. cbn [handle]. unfold node_points. destruct (has_nan pts); [reflexivity|].
+  unfold wr. cbn [handle]. unfold node_points. destruct (has_nan pts); [reflexivity|]. destruct (bad_times pts); [reflexivity|].
   destruct (merge_batch false _ _). reflexivity.
 Qed.
 
 Lemma wr_np_edges_nil st i pts : s_edges st = [] -> s_edges (wr st (NodePts i pts)) = [].
 Proof.
-  intros H. unfold wr. cbn [handle]. unfold node_points. destruct (has_nan pts); [exact H|].
+  intros H. unfold wr. cbn [handle]. unfold node_points. destruct (has_nan pts); [exact H|]. destruct (bad_times pts); [exact H|].
   destruct (merge_batch false _ _). cbn [fst s_edges]. unfold update_hash. rewrite H. reflexivity.
 Qed.
 
@@ -62,7 +62,7 @@ Proof. intros (p & H1 & H2). exists p. rewrite wr_np_rows. auto. Qed.
 Lemma wr_ep_root st id par pts : par <> [] -> par <> str_root -> s_root (wr st (EdgePts id par pts)) = s_root st.
 Proof.
   intros Hp Hr. unfold wr. cbn [handle]. unfold edge_points.
-  destruct (has_nan pts); [reflexivity|]. destruct (bytes_eqb id par); [reflexivity|].
+  destruct (has_nan pts); [reflexivity|]. destruct (bad_times pts); [reflexivity|]. destruct (bytes_eqb id par); [reflexivity|].
   destruct (bytes_eqb id (s_root st) && _); [reflexivity|].
   assert (match par with [] => str_root | _ :: _ => par end = par) as -> by (destruct par; [contradiction|reflexivity]).
   destruct (find_edge (s_edges st) par id).
@@ -81,6 +81,14 @@ Proof.
 Qed.
 
 (* ---- the root edge ---- *)
+Definition in_range (t : Z) : Prop := (min_ns <= t <= max_ns)%Z.
+Lemma bad_times_init t ty : in_range t -> bad_times [tpt t; ntpt t ty] = false.
+Proof.
+  intros [H1 H2]. unfold bad_times, bad_time. cbn [existsb tpt ntpt p_time].
+  assert ((t <? min_ns)%Z = false) as -> by (apply Z.ltb_ge; exact H1).
+  assert ((max_ns <? t)%Z = false) as -> by (apply Z.ltb_ge; exact H2). reflexivity.
+Qed.
+
 Lemma has_nan_init t ty : has_nan [tpt t; ntpt t ty] = false.
 Proof. reflexivity. Qed.
 
@@ -98,14 +106,14 @@ Lemma bytes_neq_eqb' a b : a <> b -> bytes_eqb a b = false.
 Proof. intros H. destruct (bytes_eqb a b) eqn:E; [|reflexivity]. apply bytes_eqb_eq in E. contradiction. Qed.
 
 Lemma wr_root_edge st r t ty :
-  okst st -> s_edges st = [] -> r <> str_root -> ty <> [] ->
+  okst st -> s_edges st = [] -> r <> str_root -> ty <> [] -> in_range t ->
   let st' := wr st (EdgePts r str_root [tpt t; ntpt t ty]) in
   s_root st' = r /\ found st' r.
 Proof.
-  intros (W & I & HO) Hnil Hr Hty. cbv zeta. unfold wr. cbn [handle].
+  intros (W & I & HO) Hnil Hr Hty Hrange. cbv zeta. unfold wr. cbn [handle].
   destruct (edge_points st r str_root [tpt t; ntpt t ty]) as [st'|err] eqn:E; cbn [fst].
   - split.
-    + revert E. unfold edge_points. rewrite has_nan_init, (bytes_neq_eqb' r str_root Hr), no_pos_tomb, andb_false_r.
+    + revert E. unfold edge_points. rewrite has_nan_init, (bad_times_init t ty Hrange), (bytes_neq_eqb' r str_root Hr), no_pos_tomb, andb_false_r.
       change (match str_root with [] => str_root | _ :: _ => str_root end) with str_root.
       rewrite Hnil. cbn [find_edge find]. destruct (is_upstream [] _ r str_root); [discriminate|].
       destruct (merge_batch true [] _). rewrite init_node_type. destruct ty; [contradiction|].
@@ -113,7 +121,7 @@ Proof.
     + destruct (edge_points_edge_rows st r str_root _ st' W HO ltac:(discriminate) E) as (Hsame & _ & _).
       exists str_root. rewrite Hsame. unfold edge_rows at 1 2. rewrite Hnil. cbn [find_edge find].
       rewrite init_rows. split; [discriminate|reflexivity].
-  - exfalso. revert E. unfold edge_points. rewrite has_nan_init, (bytes_neq_eqb' r str_root Hr), no_pos_tomb, andb_false_r.
+  - exfalso. revert E. unfold edge_points. rewrite has_nan_init, (bad_times_init t ty Hrange), (bytes_neq_eqb' r str_root Hr), no_pos_tomb, andb_false_r.
     change (match str_root with [] => str_root | _ :: _ => str_root end) with str_root.
     rewrite Hnil. cbn [find_edge find].
     assert (Hup : is_upstream [] (fuel_of []) r str_root = false).
@@ -126,13 +134,13 @@ Definition the_root (fr : fresh) : bytes := match f_cfg_root fr with [] => f_roo
 
 Definition ids_ok (fr : fresh) : Prop :=
   fresh_ok fr /\ f_root fr <> str_none /\ f_admin fr <> str_none /\
-  match f_cfg_root fr with [] => True | r => r <> str_none end.
+  match f_cfg_root fr with [] => True | r => r <> str_none end /\ in_range (f_now fr).
 
 Lemma the_root_facts fr : ids_ok fr ->
   the_root fr <> [] /\ the_root fr <> str_root /\ the_root fr <> str_none /\ f_admin fr <> the_root fr /\
-  f_admin fr <> str_none /\ f_key fr <> [].
+  f_admin fr <> str_none /\ f_key fr <> [] /\ in_range (f_now fr).
 Proof.
-  intros ((H1 & H2 & H3 & H4 & H5 & H6) & N1 & N2 & N3). unfold the_root.
+  intros ((H1 & H2 & H3 & H4 & H5 & H6) & N1 & N2 & N3 & N4). unfold the_root. pose proof N4 as [N4a N4b].
   destruct (f_cfg_root fr) as [|c cs]; [repeat split; assumption|].
   destruct H6 as [H6 H7]. repeat split; try assumption. discriminate.
 Qed.
@@ -167,14 +175,14 @@ Lemma root_txs_prefix fr d j : ids_ok fr -> Pre d ->
   Pre d' \/ (Post d' /\ exists v key, d_meta d' = [mkMeta v (the_root fr) key] /\ True).
 Proof.
   intros Hids (v & key & Hm & Hok & Hnil & Hroot). cbv zeta.
-  destruct (the_root_facts fr Hids) as (R1 & R2 & R3 & R4 & R5 & R6).
+  destruct (the_root_facts fr Hids) as (R1 & R2 & R3 & R4 & R5 & R6 & R7).
   set (r := the_root fr) in *.
   set (st1 := wr (d_store d) (NodePts r [])).
   assert (Hok1 : okst st1) by (apply okst_wr; [exact Hok|exact I]).
   assert (Hnil1 : s_edges st1 = []) by (apply wr_np_edges_nil; exact Hnil).
   assert (Hroot1 : s_root st1 = []) by (unfold st1; rewrite wr_np_root; exact Hroot).
   set (st2 := wr st1 (EdgePts r str_root [tpt (f_now fr); ntpt (f_now fr) str_device])).
-  destruct (wr_root_edge st1 r (f_now fr) str_device Hok1 Hnil1 R2 ltac:(discriminate)) as [Hr2 Hf2]. fold st2 in Hr2, Hf2.
+  destruct (wr_root_edge st1 r (f_now fr) str_device Hok1 Hnil1 R2 ltac:(discriminate) R7) as [Hr2 Hf2]. fold st2 in Hr2, Hf2.
   assert (Hok2 : okst st2) by (apply okst_wr; [exact Hok1|discriminate]).
   set (st3 := wr st2 (NodePts (f_admin fr) [mkPoint [101;109;97;105;108] [] (f_now fr) 0 [97] [] 0%Z []])).
   assert (Hok3 : okst st3) by (apply okst_wr; [exact Hok2|exact I]).
@@ -261,14 +269,14 @@ Lemma root_txs_full fr d v key : ids_ok fr ->
   d_meta d' = [mkMeta v (the_root fr) key] /\ found (d_store d') (the_root fr).
 Proof.
   intros Hids Hm Hok Hnil Hroot. cbv zeta.
-  destruct (the_root_facts fr Hids) as (R1 & R2 & R3 & R4 & R5 & R6).
+  destruct (the_root_facts fr Hids) as (R1 & R2 & R3 & R4 & R5 & R6 & R7).
   set (r := the_root fr) in *.
   set (st1 := wr (d_store d) (NodePts r [])).
   assert (Hok1 : okst st1) by (apply okst_wr; [exact Hok|exact I]).
   assert (Hnil1 : s_edges st1 = []) by (apply wr_np_edges_nil; exact Hnil).
   assert (Hroot1 : s_root st1 = []) by (unfold st1; rewrite wr_np_root; exact Hroot).
   set (st2 := wr st1 (EdgePts r str_root [tpt (f_now fr); ntpt (f_now fr) str_device])).
-  destruct (wr_root_edge st1 r (f_now fr) str_device Hok1 Hnil1 R2 ltac:(discriminate)) as [Hr2 Hf2]. fold st2 in Hr2, Hf2.
+  destruct (wr_root_edge st1 r (f_now fr) str_device Hok1 Hnil1 R2 ltac:(discriminate) R7) as [Hr2 Hf2]. fold st2 in Hr2, Hf2.
   assert (Hok2 : okst st2) by (apply okst_wr; [exact Hok1|discriminate]).
   set (st3 := wr st2 (NodePts (f_admin fr) [mkPoint [101;109;97;105;108] [] (f_now fr) 0 [97] [] 0%Z []])).
   assert (Hok3 : okst st3) by (apply okst_wr; [exact Hok2|exact I]).
@@ -303,7 +311,7 @@ Definition Opened (d : disk) : Prop :=
 Lemma finish fr d v r key : ids_ok fr -> d_meta d = [mkMeta v r key] -> r <> [] -> found (d_store d) r ->
   Opened (run_txs (match key with [] => [set_meta (fun m => mkMeta (m_version m) (m_root m) (f_key fr))] | _ :: _ => [] end) d).
 Proof.
-  intros Hids Hm Hr Hf. destruct (the_root_facts fr Hids) as (_ & _ & _ & _ & _ & R6).
+  intros Hids Hm Hr Hf. destruct (the_root_facts fr Hids) as (_ & _ & _ & _ & _ & R6 & _).
   destruct key as [|k0 ks].
   - destruct (key_full d fr v r [] Hm) as [H1 H2]. cbv zeta in H1, H2.
     exists (mkMeta v r (f_key fr)). rewrite H1, H2. cbn [m_root m_key]. auto.
